@@ -14,7 +14,11 @@ TABLE = os.path.join(os.path.dirname(os.path.dirname(os.path.abspath(__file__)))
 
 def strip_tests(s):
     i = s.find("#[cfg(test)]")
-    return s if i < 0 else s[:i]
+    s = s if i < 0 else s[:i]
+    s = re.sub(r'"(?:[^"\\\n]|\\.)*"', '""', s)  # string literals
+    s = re.sub(r"//[^\n]*", "", s)               # comments mention function names too
+    s = re.sub(r"/\*.*?\*/", "", s, flags=re.S)
+    return s
 
 
 def functions(s):
@@ -35,16 +39,29 @@ def functions(s):
         yield m.group(1), s[i:j + 1]
 
 
-def lock_sequence(body):
+KEEP_CALL = re.compile(r"^(process_\w+|authenticate|send_isupport)$")
+
+
+def lock_sequence(body, helpers=None, depth=0):
     """ordered list of lock events: 'R' / 'W' acquisitions, and 'A' for an await that is neither a lock
-    acquisition nor an output feed (e.g. password verification) — position matters"""
+    acquisition nor an output feed (e.g. password verification) — position matters.  A call of a private
+    helper (any other fn of these files) is replaced by the helper's own sequence, so that extracting or
+    inlining a helper does not change the table."""
+    helpers = helpers or {}
     ev = []
-    for m in re.finditer(r"self\s*\.\s*state\s*\.\s*(read|write)\s*\(\s*\)\s*\.\s*await|argon2_verify_password_async|spawn_blocking|\.authenticate\(|self\s*\.\s*process_\w+\(|self\s*\.\s*send_isupport\(", body):
+    for m in re.finditer(r"self\s*\.\s*state\s*\.\s*(read|write)\s*\(\s*\)\s*\.\s*await|argon2_verify_password_async|spawn_blocking|\.authenticate\(|self\s*\.\s*process_\w+\(|self\s*\.\s*send_isupport\(|(?<![\w.])(?:self\s*\.\s*|Self::)?(\w+)\s*\(", body):
         t = m.group(0)
         if m.group(1) == "read":
             ev.append("R")
         elif m.group(1) == "write":
             ev.append("W")
+        elif m.group(2) is not None:
+            h = m.group(2)
+            if KEEP_CALL.match(h):
+                if re.match(r"(self\s*\.|Self::)", t) or h == "authenticate":
+                    ev.append("call:" + h)
+            elif h in helpers and depth < 4:
+                ev += lock_sequence(helpers[h], helpers, depth + 1)
         elif "argon2" in t or "spawn_blocking" in t:
             ev.append("PWVERIFY")
         elif ".authenticate(" in t:
@@ -56,6 +73,10 @@ def lock_sequence(body):
 
 def extract():
     table = {"handlers": {}, "gate_allowed": [], "dispatch": []}
+    helpers = {}
+    for path in SRC:
+        for name, body in functions(strip_tests(open(path).read())):
+            helpers.setdefault(name, body[1:])  # without the opening brace; fn header is not part of it
     for path in SRC:
         s = strip_tests(open(path).read())
         for name, body in functions(s):
@@ -64,7 +85,7 @@ def extract():
             if name.startswith("process_") or name in ("authenticate", "remove_user", "send_isupport",
                                                        "send_names_from_channel", "send_who_info"):
                 key = os.path.basename(path) + "::" + name
-                table["handlers"][key] = lock_sequence(body)
+                table["handlers"][key] = lock_sequence(body, helpers)
         if path.endswith("mod.rs"):
             m = re.search(r"match cmd \{\s*((?:\s*\w+\s*\{[^}]*\}\s*\|?)+)\s*=>\s*\{\s*\}", s)
             if m:
@@ -82,8 +103,9 @@ def main():
         return 0
     old = json.load(open(TABLE))
     diffs = []
-    for k in sorted(set(old["handlers"]) | set(t["handlers"])):
-        if old["handlers"].get(k) != t["handlers"].get(k):
+    moved = {k.split("::")[1]: v for k, v in t["handlers"].items()}  # a handler may move to another file
+    for k in sorted(set(old["handlers"])):
+        if old["handlers"].get(k) != t["handlers"].get(k, moved.get(k.split("::")[1])):
             diffs.append("handler %s: table %s, source now %s" % (k, old["handlers"].get(k), t["handlers"].get(k)))
     if old["gate_allowed"] != t["gate_allowed"]:
         diffs.append("gate: table %s, source now %s" % (old["gate_allowed"], t["gate_allowed"]))
